@@ -1,5 +1,5 @@
 //! Kani harness over the real `impl Display for TranslationsFormatter` of leptos_i18n_build:
-//! for every string of at most 2 characters the exported text is a JSON array whose single string decodes
+//! for every string of one character, and of two characters of which one is ASCII, the exported text is a JSON array whose single string decodes
 //! back to the input.
 #![allow(dead_code)]
 #![cfg_attr(kani, feature(formatting_options))]
@@ -220,6 +220,26 @@ mod proofs {
     #[kani::unwind(15)]
     fn json_chars_2_1() {
         run::<2, 1, 3>();
+    }
+    #[kani::proof]
+    #[kani::unwind(15)]
+    fn json_chars_1_3() {
+        run::<1, 3, 4>();
+    }
+    #[kani::proof]
+    #[kani::unwind(15)]
+    fn json_chars_3_1() {
+        run::<3, 1, 4>();
+    }
+    #[kani::proof]
+    #[kani::unwind(15)]
+    fn json_chars_1_4() {
+        run::<1, 4, 5>();
+    }
+    #[kani::proof]
+    #[kani::unwind(15)]
+    fn json_chars_4_1() {
+        run::<4, 1, 5>();
     }
 
     #[kani::proof]
